@@ -380,10 +380,9 @@ Definition arg_dtype (darg : option dtype) (dflt : dtype) : dtype :=
 
 (* from_attributes: every cell is the cast of its source coefficient, in the chosen dtype *)
 Lemma from_attributes_fixed darg nk s0 v0 rest :
+  let d := arg_dtype darg (common_dtype s0 (map fst rest)) in
   from_attributes fixed darg nk ((s0, v0) :: rest)
-  = mkP (arg_dtype darg s0)
-        (map (fun sv => map (fun v => Val (arg_dtype darg s0) (cast (arg_dtype darg s0) v)) (snd sv)) ((s0, v0) :: rest))
-        false.
+  = mkP d (map (fun sv => map (fun v => Val d (cast d v)) (snd sv)) ((s0, v0) :: rest)) false.
 Proof.
 unfold from_attributes, arg_dtype. f_equal.
 - apply map_ext; intros [s vs]; simpl. apply set_values_fresh.
@@ -458,12 +457,18 @@ repeat split; intros.
 Qed.
 
 (* ---- values: closed forms for correctly built operands ------------------------------------- *)
+Lemma common_dtype_same d0 (cols : list (list value)) : common_dtype d0 (map fst (map (fun c => (d0, c)) cols)) = d0.
+Proof.
+unfold common_dtype. induction cols as [|c cols IH]; [reflexivity|]. cbn [map fst fold_left]. now rewrite promote_idem.
+Qed.
+
 Lemma fa_cols darg nk d0 (cols : list (list value)) :
   cols <> [] ->
   from_attributes fixed darg nk (map (fun c => (d0, c)) cols)
   = mkP (arg_dtype darg d0) (map (map (fun v => Val (arg_dtype darg d0) (cast (arg_dtype darg d0) v))) cols) false.
 Proof.
 destruct cols as [|c cols]; [congruence|]; intros _. cbn [map]. rewrite from_attributes_fixed.
+cbv zeta. rewrite common_dtype_same.
 f_equal. cbn [map snd]. f_equal. now rewrite map_map.
 Qed.
 
